@@ -355,11 +355,12 @@ PLAN_C05 = {
     "limit": (8000, 30000),
     "assumptions": ["scalar methods with an exact documented meaning: arithmetic + - * / // % ** mod remainder (// % on non-negative "
                     "operands and a positive divisor, ** with exponent 0..3), comparisons, and/or/not, maximum/minimum/fmax/fmin, "
-                    "coalesce, coalesce_0, abs, sign, negation, floor/ceil on whole numbers, is_null, is_bad, if_else, where, is_in; "
+                    "coalesce, coalesce_0, abs, sign, negation, is_null, is_bad, is_nan, if_else, where, is_in; floor / ceil / round "
+                    "(numpy: halves to even) / as_int64 (truncation) / abs / sign / negation of exact halves and quarters (x / 2, x / 4); "
                     "transcendental methods are uninterpreted in the spec (null propagation and domain only) and realised with "
                     "Python's math module; aggregates and window functions are checked by C09 and C27",
                     "text methods concat / trimstr / mapv / is_in are covered with symbolic results realised by the harness; "
-                    "date/time, as_str, as_int64, round / around and random methods are not covered",
+                    "date/time, as_str, around(n) with n > 0 and random methods are not covered",
                     "PostgreSQL-dialect SQL is executed on SQLite (proxy)"],
 }
 
